@@ -366,6 +366,8 @@ func c05(r *core.Run) {
 	root := p.FuncsOfPkg("")
 	if sa := resolveSvc(r, "M6"); sa.ok {
 		c01Restart(r, "M6", sa, root)
+		r.Rule("M7", "exactly the handler, once (shared with C09.S3 / C04.R8): the loop that subscribes to get/call/auth subjects skips a subject covered by any other subject of the whole list; two overlapping subscriptions deliver one request twice and its handler is invoked twice", 2)
+		coveringRule(r, "M7")
 	}
 	if ro := resolveMuxRolesFor(r, "M3"); ro != nil {
 		c06Specificity(r, "M4", ro)
